@@ -539,3 +539,61 @@ pub fn likely_search() -> Option<(Vec<u8>, String)> {
     }
     None
 }
+
+// ------------------------------------------------------------------------------------------------ super (C13)
+pub fn super_check(v: &[u8]) -> Option<String> {
+    let li = LanguageIdentifier::from_bytes(v);
+    let lo = std::panic::catch_unwind(|| Locale::from_bytes(v));
+    let lo = match lo { Ok(x) => x, Err(_) => return Some(format!("Locale::from_bytes(b\"{}\") PANICKED", crate::esc(v))) };
+    if let Ok(l) = &li {
+        match &lo {
+            Ok(loc) => {
+                if loc.id != *l { return Some(format!("LanguageIdentifier parses b\"{}\" as \"{}\" but Locale's id is \"{}\"", crate::esc(v), l, loc.id)); }
+                if !loc.extensions.is_empty() { return Some(format!("Locale parsed from the plain identifier b\"{}\" has extensions: \"{}\"", crate::esc(v), loc)); }
+                if loc.to_string() != l.to_string() { return Some(format!("b\"{}\": Locale prints \"{}\", LanguageIdentifier prints \"{}\"", crate::esc(v), loc, l)); }
+            }
+            Err(e) => return Some(format!("LanguageIdentifier accepts b\"{}\" (\"{}\") but Locale rejects it: {:?}", crate::esc(v), l, e)),
+        }
+        // conversions: LanguageIdentifier -> Locale -> LanguageIdentifier is the identity
+        let as_loc: Locale = l.clone().into();
+        if !as_loc.extensions.is_empty() || as_loc.id != *l { return Some(format!("Locale::from(\"{}\") is not (id, no extensions)", l)); }
+        let back: LanguageIdentifier = as_loc.into();
+        if back != *l { return Some(format!("LanguageIdentifier -> Locale -> LanguageIdentifier is not the identity on \"{}\"", l)); }
+    }
+    if let Ok(loc) = &lo {
+        // the id equals what LanguageIdentifier parses from the part before the first singleton subtag
+        let t = crate::reference::split(v);
+        let cut = t.iter().position(|s| s.len() == 1).unwrap_or(t.len());
+        let mut prefix: Vec<u8> = vec![];
+        for (i, s) in t[..cut].iter().enumerate() { if i > 0 { prefix.push(b'-'); } prefix.extend(*s); }
+        if cut < t.len() {
+            if let Ok(pl) = LanguageIdentifier::from_bytes(&prefix) {
+                if pl != loc.id { return Some(format!("Locale b\"{}\" has id \"{}\" but the part before the first singleton parses to \"{}\"", crate::esc(v), loc.id, pl)); }
+            }
+        }
+        let dropped: LanguageIdentifier = loc.clone().into();
+        if dropped != loc.id { return Some(format!("Locale -> LanguageIdentifier of \"{}\" is not its id", loc)); }
+    }
+    None
+}
+/// bound: heads (en, und, EN, e, root, abcde, abcdef, abcdefg, abcdefgh, Qwerty) x <= 3 subtags of the boundary-class alphabet
+pub fn super_search() -> Option<(Vec<u8>, String)> {
+    let a = crate::reference::alphabet();
+    let heads: Vec<&[u8]> = vec![b"en", b"und", b"EN", b"e", b"root", b"abcde", b"abcdef", b"abcdefg", b"abcdefgh", b"Qwerty", b"abcd", b"abcdefghi"];
+    let mut buf: Vec<u8> = vec![];
+    for h in &heads {
+        for n in 0..=3usize {
+            let mut idx = vec![0usize; n];
+            loop {
+                buf.clear();
+                buf.extend(*h);
+                for i in &idx { buf.push(b'-'); buf.extend(&a[*i]); }
+                if let Some(d) = super_check(&buf) { return Some((buf.clone(), d)); }
+                let mut p = 0;
+                while p < n { idx[p] += 1; if idx[p] < a.len() { break; } idx[p] = 0; p += 1; }
+                if p == n { break; }
+            }
+        }
+    }
+    None
+}
